@@ -178,6 +178,27 @@ class GuardedDestructure(Rule):
         return out
 
 
+class MapCollect(Rule):
+    """`V.into_iter().map(|x| BODY).collect()` -> `stub(V)`: the adapter chain becomes a stub that states the element-wise,
+    order-preserving map with a spec function; BODY itself is verified separately against that spec (ClosureFn)."""
+    def __init__(self, id, param, stub, note="", min_count=1):
+        Rule.__init__(self, id, r"(\w+)\s*\.into_iter\(\)\s*\.map\(\s*\|%s\|" % re.escape(param), "", note, min_count=min_count)
+        self.stub = stub
+
+    def custom(self, src, m, item, in_skip):
+        out = []
+        for x in self.regex.finditer(m, item.body_open, item.body_close):
+            if in_skip(x.start()):
+                continue
+            po = x.start() + x.group(0).rindex("(")
+            pc = rs.match_close(m, po)
+            tail = re.compile(r"\s*\.collect\(\)").match(m, pc + 1)
+            if not tail:
+                continue
+            out.append(Edit(x.start(), tail.end(), "%s(%s)" % (self.stub, x.group(1)), "rule", self.id))
+        return out
+
+
 class Loop:
     def __init__(self, invariants=(), decreases=None, iter_name=None, desugar_range_for=False, attrs=None, continue_hint=None,
                  except_break=(), ensures=(), optional=False, desugar_while_let=False):
@@ -225,9 +246,11 @@ class ClosureFn(Fn):
     """A closure literal `Box::new(move |PARAMS| BODY)` inside `host` (a fn item path), verified as a function:
     the BODY text is copied verbatim (then regex rules), the signature (captured variables by reference + the
     closure parameters with their types) is supplied by the unit.  `which` selects the n-th such closure."""
-    def __init__(self, file, host, name, sig, which=0, **kw):
+    def __init__(self, file, host, name, sig, which=0, opener=r"Box::new\(\s*move\s*\|([^|]*)\|", value=False, **kw):
         Fn.__init__(self, file, list(host) + [name], **kw)
+        self.value = value        # the closure's body is its result (no trailing `;`)
         self.host, self.cname, self.sig, self.which = list(host), name, sig, which
+        self.opener = opener      # regex: up to and including the closure's parameter list; its first `(` is the call the closure is an argument of
         self.closure = True
 
     @property
@@ -398,11 +421,11 @@ def _build_closure(spec, src, m):
         host = rs.find_fn(src, spec.host, m)
     except rs.ScanError as e:
         raise GenError("anchor lost: %s" % e)
-    found = [x for x in re.finditer(r"Box::new\(\s*move\s*\|([^|]*)\|", m[host.body_open:host.body_close])]
+    found = [x for x in re.finditer(spec.opener, m[host.body_open:host.body_close])]
     if spec.which >= len(found):
         raise GenError("anchor lost: closure %d in %s" % (spec.which, Fn(spec.file, spec.host).qual))
     x = found[spec.which]
-    po = host.body_open + x.start() + len("Box::new")
+    po = host.body_open + x.start() + x.group(0).index("(")
     pc = rs.match_close(m, po)
     bs, be = host.body_open + x.end(), pc
     body = src[bs:be].strip().rstrip(",").strip()
@@ -436,7 +459,7 @@ def _build_closure(spec, src, m):
     for h in spec.hints:
         if h.anchor == "body:start":
             pre += _hint_text(h, "        ")
-    text = "%s\n%s    {\n%s        %s;\n    }" % (sig, ctext, pre, body)
+    text = "%s\n%s    {\n%s        %s%s\n    }" % (sig, ctext, pre, body, "" if spec.value else ";")
     line = src.count("\n", 0, bs) + 1
     ex = Extracted()
     ex.rule_counts, ex.clauses = counts, list(spec.requires) + list(spec.ensures)
